@@ -146,6 +146,32 @@ def pointee_tokens(f, arg):
     return {"ALL"}, None
 
 
+# Function-pointer slots that only ever hold functions supplied by the
+# application (no library function is stored there).  Assumption, stated in
+# every evidence file that depends on it: such a callback does not write the
+# library's private state behind the library's back (it may call the public
+# API; the re-entrancy hazards of that are C11/C20's subject, not a kill set).
+CLIENT_CALLBACK_MEMBERS = {"handler", "callback", "progress", "p_callback_func"}
+
+
+def is_client_callback(f, e):
+    if "fn" not in e:
+        return False
+    fn = ex.skip(f, e["fn"])
+    fe = f.exprs[fn]
+    if fe["k"] == "un" and fe["op"] == "*":
+        fn = ex.skip(f, fe["c"][0])
+        fe = f.exprs[fn]
+    while fe["k"] == "cast":
+        fn = ex.skip(f, fe["c"][0])
+        fe = f.exprs[fn]
+    if fe["k"] == "mem" and fe.get("member") in CLIENT_CALLBACK_MEMBERS:
+        return True
+    if fe["k"] == "ref" and fe.get("name") in ("callback", "log_fn") :
+        return True
+    return False
+
+
 class Summaries:
     def __init__(self, prog):
         self.prog = prog
@@ -367,7 +393,7 @@ class Summaries:
                     n = e.get("callee")
                     if n and not P.func_for(f, n):
                         w |= self.extern_call_tokens(f, e)
-                    elif not n and not self.resolve_indirect(f, e):
+                    elif not n and not self.resolve_indirect(f, e) and not is_client_callback(f, e):
                         w.add("ALL")
             local[f.key] = w
         self.writes = {k: set(v) for k, v in local.items()}
@@ -412,7 +438,7 @@ class Summaries:
             return self.extern_call_tokens(f, e)
         names = self.resolve_indirect(f, e)
         if not names:
-            return {"ALL"}
+            return set() if is_client_callback(f, e) else {"ALL"}
         w = set()
         for nm in names:
             t = self.prog.func_for(f, nm)
